@@ -20,7 +20,7 @@ RULE = ('grid enumerated every run: sending = role x target {origin, stream, bot
         'random cases add stream advertisements made right after a refused response attempt and ALTSVC frames at arbitrary points followed by the differential continuation on servers; '
         'non-trivial = table verdict compared; distinct = grid cell')
 MINIMA = {'send_cases_judged': 100, 'receive_cases_judged': 200, 'events_checked': 40, 'server_differential_checked': 300,
-          'ignored_frames_checked': 100, 'repeated_advertisements_checked': 40, 'advertisement_after_response_checked': 20, 'advertisement_after_refused_response_attempt': 40}
+          'ignored_frames_checked': 100, 'repeated_advertisements_checked': 40, 'advertisement_after_response_checked': 20, 'advertisement_after_refused_response_attempt': 40, 'request_header_list_changed_by_the_caller_afterwards': 100}
 EXHAUSTIVE = {}
 
 SEND_STATES = ['idle-conn', 'idle', 'open', 'after-1xx', 'after-final', 'hc_remote', 'hc_local', 'closed_es', 'closed_rst', 'reserved']
@@ -163,6 +163,13 @@ def recv_case(cell, rep, rng):
                     expect_origin = b'pushed.example'
             else:
                 sid, _ = h.e_request(headers=req)
+                if rng.random() < 0.5:
+                    # the application goes on using its own list: what the request said was said when it was sent
+                    rep.count('request_header_list_changed_by_the_caller_afterwards')
+                    if rng.random() < 0.5:
+                        req[2] = (b':authority', b'other.example')
+                    else:
+                        del req[:]
                 if prog == 'open-after-data':
                     t.call('send_data', sid, b'body')
                 elif prog == 'after-trailers':
